@@ -126,7 +126,10 @@ impl SymbolTable {
                     return Some(Rc::clone(symbol));
                 }
             }
-        } else if let Some(outer) = &mut self.outer {
+        }
+        // Not visible here (absent, or defined only in a deeper block):
+        // look in the enclosing scope
+        if let Some(outer) = &mut self.outer {
             if let Some(obj) = outer.resolve(name, depth) {
                 if matches!(
                     obj.scope,
